@@ -11,6 +11,7 @@
 package c05
 
 import (
+	"errors"
 	"io"
 	"os"
 	"path/filepath"
@@ -21,20 +22,20 @@ import (
 	"github.com/lindb/lindb/pkg/queue/page"
 )
 
-// store is one logged store.
-type store struct {
-	kind  string // data | index | meta
-	page  int64
-	off   int
-	width int
-}
-
 // ctl is the per-case controller shared by all wrapped pages.
 type ctl struct {
 	mu     sync.Mutex
 	root   string         // queue directory the wrapped factories belong to
 	hw     map[string]int // relative file path -> bytes that may differ from zero
-	stores []store
+	nstore int            // number of stores logged in this case
+
+	// fault injection: the next AcquirePage on the data factory fails (one-shot)
+	failDataAcquire bool
+	failFired       bool
+
+	// GC parking: called at indexPageFct.GetPage ("getpage"), dataPageFct.TruncatePages
+	// ("truncdata") and indexPageFct.TruncatePages ("truncindex")
+	gcPark func(point string)
 
 	// crash-image mode: when armed, the directory is imaged after exactly crashK stores
 	// (a WriteBytes of n bytes counts as n stores and is split at the crash point).
@@ -52,10 +53,9 @@ func newCtl(root string) *ctl { return &ctl{root: root, hw: map[string]int{}} }
 
 func (c *ctl) note(p *wpage, off, width int) {
 	c.mu.Lock()
-	c.stores = append(c.stores, store{p.kind, p.id, off, width})
-	rel := filepath.Join(p.kind, filepath.Base(p.MappedPage.FilePath()))
-	if off+width > c.hw[rel] {
-		c.hw[rel] = off + width
+	c.nstore++
+	if off+width > c.hw[p.rel] {
+		c.hw[p.rel] = off + width
 	}
 	c.mu.Unlock()
 }
@@ -146,10 +146,18 @@ func (f *wfactory) wrap(p page.MappedPage) page.MappedPage {
 	}
 	base := filepath.Base(p.FilePath())
 	id, _ := strconv.ParseInt(strings.TrimSuffix(base, filepath.Ext(base)), 10, 64)
-	return &wpage{MappedPage: p, kind: f.kind, id: id, c: f.c}
+	return &wpage{MappedPage: p, kind: f.kind, id: id, c: f.c, rel: filepath.Join(f.kind, base)}
 }
 
+// errInjected is the AcquirePage error of the one-shot fault.
+var errInjected = errors.New("injected: no space left on device")
+
 func (f *wfactory) AcquirePage(i int64) (page.MappedPage, error) {
+	if f.kind == "data" && f.c.failDataAcquire {
+		f.c.failDataAcquire = false
+		f.c.failFired = true
+		return nil, errInjected
+	}
 	p, err := f.Factory.AcquirePage(i)
 	if err != nil {
 		return nil, err
@@ -157,7 +165,17 @@ func (f *wfactory) AcquirePage(i int64) (page.MappedPage, error) {
 	return f.wrap(p), nil
 }
 
+func (f *wfactory) TruncatePages(i int64) {
+	if f.c.gcPark != nil && (f.kind == "data" || f.kind == "index") {
+		f.c.gcPark("trunc" + f.kind)
+	}
+	f.Factory.TruncatePages(i)
+}
+
 func (f *wfactory) GetPage(i int64) (page.MappedPage, bool) {
+	if f.c.gcPark != nil && f.kind == "index" {
+		f.c.gcPark("getpage")
+	}
 	p, ok := f.Factory.GetPage(i)
 	if !ok {
 		return nil, false
@@ -171,6 +189,7 @@ type wpage struct {
 	kind string
 	id   int64
 	c    *ctl
+	rel  string
 }
 
 func (p *wpage) WriteBytes(data []byte, off int) {
